@@ -23,40 +23,40 @@ type consensusRS = cstypes.RoundState
 
 // AdvMsg is a message fabricated by the adversary, visible to a set of nodes.
 type AdvMsg struct {
-	Msg     consensus.Message
-	Height  uint64
-	To      map[int]bool // nil = everybody
-	Sent    map[int]int  // deliveries per node
-	Label   string
+	Msg    consensus.Message
+	Height uint64
+	To     map[int]bool // nil = everybody
+	Sent   map[int]int  // deliveries per node
+	Label  string
 }
 
 type NetOpts struct {
-	N        int
-	Powers   []int64
-	Byz      []int // validator indices controlled by the adversary
-	ChainID  string
-	Node     func(i int) NodeOpts
-	Genesis  func(*genesis.Genesis)
-	Root     string // scratch directory
+	N       int
+	Powers  []int64
+	Byz     []int // validator indices controlled by the adversary
+	ChainID string
+	Node    func(i int) NodeOpts
+	Genesis func(*genesis.Genesis)
+	Root    string // scratch directory
 }
 
 // Net is a simulated network of correct nodes plus adversary-controlled validators.
 type Net struct {
-	Opts    NetOpts
-	Gen     *genesis.Genesis
-	ChainID string
-	Keys    []*ecdsa.PrivateKey
-	Addrs   []common.Address
-	Nodes   []*Node // index = validator index; nil for adversary-controlled validators
-	IsByz   map[int]bool
-	Group   []int // partition group per validator index (messages flow only within a group); nil = connected
-	Adv     []*AdvMsg
-	Mons    []Monitor
-	Sched   []string // recorded schedule (one compact line per step)
-	Steps   int
-	Root    string
-	ownRoot bool
-	Stats   map[string]int
+	Opts           NetOpts
+	Gen            *genesis.Genesis
+	ChainID        string
+	Keys           []*ecdsa.PrivateKey
+	Addrs          []common.Address
+	Nodes          []*Node // index = validator index; nil for adversary-controlled validators
+	IsByz          map[int]bool
+	Group          []int // partition group per validator index (messages flow only within a group); nil = connected
+	Adv            []*AdvMsg
+	Mons           []Monitor
+	Sched          []string // recorded schedule (one compact line per step)
+	Steps          int
+	Root           string
+	ownRoot        bool
+	Stats          map[string]int
 	AllowRestarts  bool
 	RestartErrs    []string
 	GossipEvidence bool
@@ -826,7 +826,6 @@ func (net *Net) Dump() []string {
 
 // FireNode fires the armed timeout of one node.
 func (net *Net) FireNode(n *Node) bool { return net.fire(n) }
-
 
 // Restart stops node i cleanly (consensus, pool, blockchain flush) and starts a new incarnation on the same
 // database and WAL through the real OnStart/catchupReplay.
